@@ -283,8 +283,11 @@ def gen_spec(H: Chooser, feat=None) -> dict:
             classes.append({"name": f"K{j}", "kind": "data", "parent": None, "weight": None,
                             "fields": [["f0", ["bool"] if j == 0 else ["cls", f"K{j - 1}"]]]})
         a = H.pick(abstracts)
+        ktop = ["cls", f"K{depth - 1}"]
+        if feat.get("union") and H.draw(2):
+            ktop = ["union", [ktop, ["bool"]]]  # the deep stand-alone class as a MEMBER of a union (deeper than any production)
         classes.append({"name": f"C{n_conc}", "kind": "data", "parent": a, "weight": None,
-                        "fields": [["f0", ["cls", f"K{depth - 1}"]], ["f1", ["cls", a]]] if H.draw(2) else [["f0", ["cls", a]], ["f1", ["cls", f"K{depth - 1}"]]]})
+                        "fields": [["f0", ktop], ["f1", ["cls", a]]] if H.draw(2) else [["f0", ["cls", a]], ["f1", ktop]]})
         n_conc += 1
     if feat.get("self_ref") and H.draw(3) == 0:
         # a production that names a concrete production (itself or a sibling) directly in a field type
